@@ -95,6 +95,8 @@ def strategy_for(job):
         return gen.csv_cases()
     if fam == 'plist':
         return gen.plist_cases(job['max_leaves'])
+    if fam == 'plistjson':
+        return gen.plist_cases(job['max_leaves']).map(lambda c: dict(c, family='plistjson'))
     raise ValueError(fam)
 
 
